@@ -91,6 +91,32 @@ func TestC19MsgDataEnum(t *testing.T) {
 			}
 		}
 	}
+	// every payload length up to 2100 and around every power of two up to
+	// 128 KiB, position-dependent bytes, three version bytes
+	var sweep []int
+	for l := 0; l <= 2100; l++ {
+		sweep = append(sweep, l)
+	}
+	for e := 12; e <= 17; e++ {
+		for d := -3; d <= 3; d++ {
+			sweep = append(sweep, (1<<e)+d)
+		}
+	}
+	for _, l := range sweep {
+		payload := make([]byte, l)
+		for i := range payload {
+			payload[i] = byte(i*7 + l)
+		}
+		for _, v := range []uint8{0, 1, 255} {
+			rec.Case(true, fmt.Sprintf("sweep v%d l%d", v, l), "value_length_sweep")
+			if msg := msgDataValueRT(v, payload); msg != "" {
+				nviol++
+				if nviol < 5 {
+					rec.Violation(msg, "bytes", hexCase{Hex: fmt.Sprintf("len %d version %d", l, v)})
+				}
+			}
+		}
+	}
 	// all byte strings of length 0..2
 	var total, accepted int64
 	try := func(b []byte) {
